@@ -107,6 +107,7 @@ def run(ctx):
     ctx.run_rule("R4-arc-forward", r4_arc, F)
     ctx.run_rule("R9-name-decoding", r9_names, F)
     ctx.run_rule("R10-zc-adapters", zc_adapters, F, "R10-zc-adapters")
+    ctx.run_rule("R11-setxattr-size", r11_setxattr, F)
     ctx.run_rule("R6-context", r6_context, F)
     ctx.run_rule("R7-oversize-gate", r7_oversize, F)
     ctx.run_rule("R8-arg-conversions", r8_conversions, F)
@@ -307,6 +308,21 @@ def zc_adapters(ctx, F, rule):
         ctx.check(rule, tag, ok, "%s is not exactly `self.0.%s(<its own arguments>)`: %s" % (tag, ZC_CALLEE.get(b.name, b.name),
                   [(c.name, [vf.render(x, b, short=True)[:60] for x in v.call_args(c)]) for c in cs][:3]), loc=b.loc())
     ctx.check(rule, "adapters", n >= 6, "only %d adapter methods found" % n)
+
+
+def r11_setxattr(ctx, F):
+    """SETXATTR is refused as malformed exactly when the announced value size differs from the bytes that follow the name."""
+    b = F.method(common.SERVER, "setxattr")
+    v = vf.VF(b)
+    roots = common.request_roots(v, b) + common.ctx_roots(b)
+    sites = []
+    for bb in sorted(b.reachable()):
+        for s_ in b.stmts(bb):
+            if s_[0] == "=" and s_[2][0] == "agg" and isinstance(s_[2][1], dict) and s_[2][1].get("variant") == "InvalidXattrSize":
+                g = [(vf.render(x, b, roots, short=True, vfx=v), l) for (x, l, u) in v.guards(bb)]
+                sites.append([(t, l) for (t, l) in g if not t.startswith("discr(")])
+    ok = len(sites) == 1 and len(sites[0]) == 1 and sites[0][0][1] != 0 and sites[0][0][0].startswith("Ne(") and "SetxattrIn.size" in sites[0][0][0] and "split_at(" in sites[0][0][0] and ".1)" in sites[0][0][0]
+    ctx.check("R11-setxattr-size", "refusal", ok, "Server::setxattr refuses with InvalidXattrSize under %s; required `SetxattrIn.size != len(value)`" % [[(t[:60], l) for (t, l) in s_] for s_ in sites], loc=b.loc())
 
 
 def r9_names(ctx, F):
